@@ -876,8 +876,11 @@ impl Ord for Value {
                         return cmp_uncoercible_numbers(self, other);
                     }
 
-                    let a = self.as_object().unwrap();
-                    let b = other.as_object().unwrap();
+                    // values of the same kind that are neither primitives nor
+                    // objects (two invalid values) are ordered by kind alone.
+                    let (Some(a), Some(b)) = (self.as_object(), other.as_object()) else {
+                        return kind_ordering;
+                    };
 
                     match self.is_tuple().cmp(&other.is_tuple()) {
                         Ordering::Equal => {}
